@@ -1,6 +1,6 @@
 From Coq Require Import List NArith ZArith Bool Lia Arith String.
 From Dznpy Require Import Base.PyStr Base.Result Base.Json Model.TextGen Model.Scoping Model.PortSelection Model.CppGen Model.Ast
-  Model.SupportFiles Model.Builder Spec.LookupSpec Spec.DznFile Proofs.C14Facts Proofs.BuilderFacts.
+  Model.SupportFiles Sem.ShellSem Model.Builder Spec.LookupSpec Spec.DznFile Proofs.C14Facts Proofs.BuilderFacts.
 Import ListNotations.
 Open Scope nat_scope.
 
@@ -73,12 +73,11 @@ Lemma single_err {A} (pick : found -> option A) l e : single pick l = Err e -> e
 Proof. unfold single. destruct l as [|f [|g l']]; try congruence. destruct (pick f); congruence. Qed.
 
 (* every parameter type printed in the shell is the data value of the unique extern found from the interface's scope *)
-Lemma formal_args_resolution fc itf by_ref e args : formal_args fc itf by_ref e = Ok args ->
-  Forall2 (fun f arg => exists ext, lookup_fqn fc (f_type f) (it_fqn itf) = [FExtern ext] /\
-                        exists r, arg = (ex_value ext ++ r ++ L " " ++ f_name f)%list) (e_formals e) args.
+Lemma formal_params_resolution fc itf by_ref e ps : formal_params fc itf by_ref e = Ok ps ->
+  Forall2 (fun f p => exists ext, lookup_fqn fc (f_type f) (it_fqn itf) = [FExtern ext] /\ cp_type p = ex_value ext /\ cp_pname p = f_name f) (e_formals e) ps.
 Proof.
-  unfold formal_args. generalize (e_formals e) as fs. intros fs. revert args.
-  induction fs as [|f fs IH]; intros args; cbn [mapM]; [intros H; inversion H; constructor|].
+  unfold formal_params. generalize (e_formals e) as fs. intros fs. revert ps.
+  induction fs as [|f fs IH]; intros ps; cbn [mapM]; [intros H; inversion H; constructor|].
   destruct (single as_extern (lookup_fqn fc (f_type f) (it_fqn itf))) as [ext|] eqn:S; cbn [bind]; [|discriminate].
   destruct (mapM _ fs) as [rest|] eqn:M; cbn [bind]; [|discriminate]. intros H; inversion H; subst.
   constructor; [|now apply IH].
